@@ -450,6 +450,8 @@ func errEnum(err error) string {
 		return "SHORT_WRITE"
 	case errors.Is(err, file.ErrPathTraversalDisallowed):
 		return "TRAVERSAL"
+	case errors.Is(err, file.ErrOverwriteDisallowed):
+		return "OVERWRITE"
 	case errors.Is(err, content.ErrInvalidDescriptorSize):
 		return "INVALID_SIZE"
 	case errors.Is(err, content.ErrTrailingData):
@@ -977,7 +979,10 @@ func runST(id string, c *Case) string {
 		}
 	}
 	final := "B=" + joinListing(e.listing())
-	if c.Kind == "oci" || strings.HasPrefix(c.Kind, "olim") {
+	if c.Kind == "memstore" { // memory.Store has no listing
+		final = "B=?"
+	}
+	if c.Kind == "oci" || c.Kind == "ocistore" || strings.HasPrefix(c.Kind, "olim") {
 		final += fmt.Sprintf(" I=%d", e.ingest())
 	}
 	// final sweep: every descriptor of the history is queried again on the final state
@@ -1668,7 +1673,7 @@ func genOption(r *common.Rand) *Case {
 		base = "file"
 	}
 	c := genHistory(r, base)
-	c.Op, c.Kind = "SX", kind
+	c.Op, c.Kind = "ST", kind // judged by the model as well (options / wrappers are modelled)
 	return c
 }
 
